@@ -148,6 +148,28 @@ func (v *Verifier) bigIntrinsic(fr *Frame, st *State, full string, fn *types.Fun
 		st.assume(c.Forall([]*Term{k}, body))
 		v.setBigBits(st, zref, nb)
 		return retZ(), true
+	case "SetBytes":
+		// z = the big-endian value of buf: bit k of z is bit k%8 of buf[len-1-k/8] for 0 <= k < 8*len,
+		// all other bits are clear (exact; a function of the bytes' content only)
+		if v.eng.IntIdx() {
+			if sv, ok := args[0].(SliceVal); ok {
+				byteSh := v.eng.shapeOf(types.Typ[types.Uint8])
+				row := v.eng.heapRows(st, byteSh, sv.Ref)[0]
+				nb := c.Fresh("bigbits", bitsT)
+				k := c.Bound("k", IntSort)
+				q := c.IDiv(k, c.Inti(8))
+				r := c.IMod(k, c.Inti(8))
+				byt := c.Select(row, c.IAdd(sv.Off, c.ISub(c.ISub(sv.Len, c.Inti(1)), q)))
+				var cases []*Term
+				for i := 0; i < 8; i++ {
+					cases = append(cases, c.And(c.Eq(r, c.Inti(int64(i))), c.Eq(c.Extract(i, i, byt), c.BVu(1, 1))))
+				}
+				in := c.And(c.ILe(c.Inti(0), k), c.ILt(k, c.IMul(c.Inti(8), sv.Len)))
+				st.assume(c.Forall([]*Term{k}, c.Eq(c.Select(nb, k), c.And(in, c.Or(cases...)))))
+				v.setBigBits(st, zref, nb)
+				return retZ(), true
+			}
+		}
 	case "And", "Or", "Xor":
 		xb, yb := argBits(0), argBits(1)
 		nb := c.Fresh("bigbits", bitsT)
